@@ -245,8 +245,9 @@ pub fn chain(prop: &'static str) -> Space {
                 let id: &[u8] = if r.take(2) == 0 { b"" } else { b"5" };
                 let dec = r.take(2) == 1;
                 for k in 1..=cut {
-                    let tok = format!("{}{}", (b'0' + (k % 40) as u8) as char, (b'0' + (k / 40) as u8) as char);
-                    lines.push((sentence(255, k, id, tok.as_bytes(), 0), dec));
+                    // one-character tokens: the whole 255-fragment group fits the no-allocator buffer
+                    let tok = [crate::spec::unarmor::armor_char((k % 64) as u8)];
+                    lines.push((sentence(255, k, id, &tok, 0), dec));
                 }
                 lines.push((sentence(255, nx, id, b"ww", 0), dec));
                 // and one more in-sequence attempt afterwards
